@@ -366,6 +366,14 @@ def _run(ctx):
     for pth in paths:
         ctx.state("path_x_class", (pth, "short"))
 
+    # 3b. value-equal numbers of different types (and falsy ones) through every path
+    for pth in paths:
+        if pth in ("taglist_add", "taglist_radd", "tagify_single", "taglist_iadd_str"):
+            continue
+        for v in (0, 0.0, -0.0, False, True, 1, 1.0, -1, 10**20, 1e20):
+            check_case(ctx, pth, v, True)
+            ctx.case(nontrivial=False)
+        ctx.state("path_x_class", (pth, "typed-number"))
     # 4. random hostile strings and numbers
     for _ in range(ctx.budget(3000, 3000000)):
         pth = rng.choice(paths)
